@@ -190,7 +190,10 @@ class Check:
                 codes = by_index[i]
                 case = core.load_case(out, i) or {"i": i}
                 sig = classify(case) if classify else None
-                hit = next((e for e in kf if sig is not None and e.get("signature") == sig), None)
+                # A known finding is behaviour the faithful model reproduces: the property's spec rejects it (code 2)
+                # while model and implementation agree. A case where the implementation ALSO differs from the model
+                # (code 1) is a different violation, even inside a known finding's region, and is reported.
+                hit = next((e for e in kf if sig is not None and e.get("signature") == sig and 1 not in codes), None)
                 if hit:
                     line = "KNOWN-FINDING: property=%s %s (%s)" % (self.pid, hit.get("what", sig), hit.get("id", ""))
                     if line not in self.known:
